@@ -370,7 +370,11 @@ def knn(X, k=1):
     sorted_dist.sort(0)
 
     # neighbour system
-    bool_knn = dist < sorted_dist[k + 1]
+    if k + 1 < X.shape[0]:
+        bool_knn = dist < sorted_dist[k + 1]
+    else:
+        # k == n_samples - 1: every other sample is a neighbour
+        bool_knn = np.ones(dist.shape, dtype=bool)
     bool_knn += bool_knn.T
     # xor diagonal
     bool_knn ^= np.diag(np.diag(bool_knn))
